@@ -172,12 +172,56 @@ func genArgFor(t *rapid.T, g *genState, c *Callable, name string) VD {
 		return genVDIn(t, g, 3)
 	}
 	switch {
+	case has(name, "type-specifier", "type", "typ") && rapid.IntRange(0, 3).Draw(t, "typedef") == 0:
+		// a typedef: the genuine one, or a tagged value carrying the typedef
+		// type name with arbitrary user data
+		if rapid.Bool().Draw(t, "real") {
+			return VD{K: "typedef"}
+		}
+		return VD{K: "tagged", ID: g.newID(), S: []byte("lisp:typedef"), L: []VD{genVDIn(t, g, 2)}}
 	case name == "type-specifier":
 		return VD{K: "sym", S: []byte(rapid.SampledFrom([]string{"list", "vector", "bytes", "string", "sorted-map", "lisp:list", "c03t", "int", ""}).Draw(t, "ts")),
 			Q: rapid.IntRange(0, 1).Draw(t, "q")}
 	case has(name, "fn", "fun", "f", "g", "predicate", "less-predicate", "binary-function", "key-fun", "constraint", "constraints"):
 		return genFun(t)
-	case has(name, "seq", "lis", "list", "vec", "lists", "values", "args", "byte-sequence", "steps", "steps-and-value", "tail", "rest", "x",
+	case name == "val" && rapid.IntRange(0, 2).Draw(t, "arr") == 0:
+		// elpspath documents: zero-, multi-dimensional and empty arrays
+		d := VD{K: "array", ID: g.newID()}
+		nd := rapid.SampledFrom([]int{0, 0, 1, 2, 2, 3}).Draw(t, "nd")
+		total := 1
+		for i := 0; i < nd; i++ {
+			n := rapid.IntRange(0, 3).Draw(t, "dim")
+			d.D = append(d.D, n)
+			total *= n
+		}
+		if d.D == nil {
+			d.D = []int{}
+		}
+		if rapid.Bool().Draw(t, "fill") {
+			for i := 0; i < min(total, 6); i++ {
+				d.L = append(d.L, genVDIn(t, g, 2))
+			}
+		}
+		return d
+	case has(name, "steps", "steps-and-value"):
+		// elpspath path steps: map key, index, '* or (range a b)
+		switch rapid.IntRange(0, 5).Draw(t, "step") {
+		case 0:
+			return VD{K: "str", S: []byte(rapid.SampledFrom([]string{"a", "b", "self", "k", "", "c", "\xff"}).Draw(t, "key"))}
+		case 1:
+			return VD{K: "int", I: rapid.SampledFrom([]int64{0, 1, -1, 2, -2, 3, 1 << 62, -(1 << 62), math.MaxInt64, math.MinInt64}).Draw(t, "idx")}
+		case 2:
+			return VD{K: "sym", S: []byte(rapid.SampledFrom([]string{"*", "range", "a", "self"}).Draw(t, "s")), Q: rapid.IntRange(0, 1).Draw(t, "q")}
+		case 3:
+			r := VD{K: "list", L: []VD{{K: "sym", S: []byte("range")}}}
+			for i := rapid.IntRange(0, 3).Draw(t, "nr"); i > 0; i-- {
+				r.L = append(r.L, VD{K: "int", I: rapid.SampledFrom([]int64{0, 1, -1, 2, 5, math.MaxInt64, math.MinInt64}).Draw(t, "ri")})
+			}
+			return r
+		default:
+			return genVDIn(t, g, 2)
+		}
+	case has(name, "seq", "lis", "list", "vec", "lists", "values", "args", "byte-sequence", "tail", "rest", "x",
 		"allowed-values", "allowed-types", "arguments"):
 		return genContainer(t, g, 3)
 	case has(name, "map", "object", "val", "input", "value", "expr", "a", "b", "head", "item", "z") && !special:
@@ -388,21 +432,81 @@ func checkApply(a Apply, ctx *vcommon.Ctx) *vcommon.Failure {
 		a.Via = "direct"
 	}
 	qual := a.Pkg + ":" + a.Name
-	for _, k := range []string{"wedge/" + qual, "death/stack-overflow/" + qual} {
-		if ctx.Known(k) && applyExcluded(k, a) {
-			ctx.Class("excluded-known/" + k)
-			return nil
+	if applyCopyProne(a) {
+		for _, k := range []string{"death/stack-overflow/copy/apply", "wedge/copy/apply", "death/stack-overflow/quasiquote/apply", "death/stack-overflow/export/apply"} {
+			if ctx.Known(k) {
+				// LVal.Copy on a self-containing list kills the process (known
+				// finding): the shape is excluded by construction for the
+				// callables known to copy their argument, and counted
+				ctx.Class("excluded-known/" + k)
+				return nil
+			}
 		}
 	}
 	journal("apply-registry", a)
-	return isolated("apply-registry", a, qual, ctx)
+	return isolated("apply-registry", a, func(kind, fam string) string {
+		if fam == "" {
+			fam = "unknown/" + qual
+		}
+		return kind + "/" + fam + "/apply"
+	}, ctx)
 }
 
-// applyExcluded narrows a known death/wedge class of a callable to the
-// argument shape that triggers it (a cyclic or aliased argument), so that the
-// callable keeps being exercised with every other shape.
-func applyExcluded(key string, a Apply) bool {
-	return hasRef(a.Args)
+// copyingCallables are the registered names observed to LVal.Copy an argument
+// (development sweep); a self-containing LIST handed to them overflows the Go
+// stack.  Other callables that evaluate a generated form may still reach
+// quasiquote with such a list: those cases are matched by the finding's key.
+var copyingCallables = map[string]bool{"quasiquote": true, "stable-sort": true, "insert-sorted": true, "assert": true, "export": true,
+	"thread-first": true, "thread-last": true, "handler-bind": true}
+
+// applyCopyProne reports whether the case hands a list that contains itself
+// (through list-like nodes only, which is what Copy descends into) to a
+// callable known to copy, or to any callable together with a quasiquote form.
+func applyCopyProne(a Apply) bool {
+	if !hasListCycle(a.Args, nil) {
+		return false
+	}
+	return copyingCallables[a.Name] || mentions(a.Args, "quasiquote")
+}
+
+type anc struct {
+	id       int
+	listLike bool
+}
+
+func hasListCycle(l []VD, path []anc) bool {
+	for _, d := range l {
+		if d.K == "ref" {
+			// cycle iff the target is an ancestor; Copy follows it iff every
+			// node from the target down to here is list-like
+			for i := len(path) - 1; i >= 0; i-- {
+				if !path[i].listLike {
+					break
+				}
+				if path[i].id == d.ID {
+					return true
+				}
+			}
+			continue
+		}
+		ll := d.K == "list" || d.K == "sexpr" || d.K == "tagged" || d.K == "error"
+		if hasListCycle(d.L, append(path, anc{d.ID, ll})) {
+			return true
+		}
+	}
+	return false
+}
+
+func mentions(l []VD, sym string) bool {
+	for _, d := range l {
+		if (d.K == "sym" || d.K == "qsym") && string(d.S) == sym {
+			return true
+		}
+		if mentions(d.L, sym) {
+			return true
+		}
+	}
+	return false
 }
 
 func hasRef(l []VD) bool {
@@ -427,6 +531,7 @@ func checkApplyInner(a Apply, ctx recorder, wd, wdAlone time.Duration) *vcommon.
 		return nil
 	}
 	qual := a.Pkg + ":" + a.Name
+	kq := canonQual(a.Pkg, a.Name)
 	ctx.Class("type/" + c.FunType)
 	ctx.Class("via/" + a.Via)
 	if reached {
@@ -449,7 +554,7 @@ func checkApplyInner(a Apply, ctx recorder, wd, wdAlone time.Duration) *vcommon.
 		// a wedge is a violation only if it reproduces when re-run alone
 		o2, _, _, _, _ := applyOnce(a, wdAlone)
 		if o2.timedOut {
-			return vcommon.Failf("wedge/"+qual, "(%s ...) via %s did not return within %v, and again not within %v when re-run alone\nargs: %s",
+			return vcommon.Failf("wedge/"+kq, "(%s ...) via %s did not return within %v, and again not within %v when re-run alone\nargs: %s",
 				qual, a.Via, wd, wdAlone, describeArgs(a))
 		}
 		ctx.Class("slow-inconclusive")
@@ -462,16 +567,16 @@ func checkApplyInner(a Apply, ctx recorder, wd, wdAlone time.Duration) *vcommon.
 	if o.panicVal != nil {
 		msg := fmt.Sprint(o.panicVal)
 		site := panicSite(o.stack)
-		return vcommon.Failf("panic/"+qual+"/"+panicClass(msg)+siteSuffix(site),
+		return vcommon.Failf("panic/"+kq+"/"+panicClass(msg)+siteSuffix(site),
 			"Go panic escaped from (%s ...) via %s: %v\nargs: %s\n%s", qual, a.Via, msg, args, clip(o.stack, 3000))
 	}
 	if o.res == nil {
-		return vcommon.Failf("nil-result/"+qual, "(%s ...) via %s returned a nil *LVal\nargs: %s", qual, a.Via, args)
+		return vcommon.Failf("nil-result/"+kq, "(%s ...) via %s returned a nil *LVal\nargs: %s", qual, a.Via, args)
 	}
 	if p := findInternalPanic(o.res); p != nil {
 		msg := errText(p)
 		gs := goStackOf(p)
-		return vcommon.Failf("panic/"+qual+"/"+panicClass(msg)+siteSuffix(panicSite(gs)),
+		return vcommon.Failf("panic/"+kq+"/"+panicClass(msg)+siteSuffix(panicSite(gs)),
 			"(%s ...) via %s answered the internal-panic condition: %s\nargs: %s\n%s", qual, a.Via, msg, args, clip(gs, 3000))
 	}
 	if o.res.Type == lisp.LError {
@@ -480,6 +585,15 @@ func checkApplyInner(a Apply, ctx recorder, wd, wdAlone time.Duration) *vcommon.
 		ctx.Class("result/value")
 	}
 	return nil
+}
+
+// canonQual names a callable for class signatures: the user package re-exports
+// the lisp package's values, so user:x and lisp:x are one callable.
+func canonQual(pkg, name string) string {
+	if pkg == "user" && findCallable("lisp", name) != nil {
+		return "lisp:" + name
+	}
+	return pkg + ":" + name
 }
 
 func siteSuffix(site string) string {
@@ -519,7 +633,7 @@ func describeVD(d VD, depth int) string {
 		if int(d.I) <= len(funSnippets) {
 			return "fun:" + funSnippets[d.I-1]
 		}
-		return "fun#?"
+		return fmt.Sprintf("gofun#%d", d.I)
 	case "ref":
 		return fmt.Sprintf("ref->#%d", d.ID)
 	case "array":
